@@ -285,8 +285,18 @@ class ForwardHarness:
                     try:
                         paths = explore(lambda ctx, _n=st.name, _s=shape: self.run_shape(ctx, _n, _s), max_paths=200)
                     except Unsupported as e:
-                        self.results.append(Result(f"{self.file}::{self.cls}.{st.name}/shape[{shape[0]}+{','.join(sorted(shape[1]))}]",
-                                                   "unsupported", "", {}, [], str(e), 0.0, "forward"))
+                        oid_ = f"{self.file}::{self.cls}.{st.name}/shape[{shape[0]}+{','.join(sorted(shape[1]))}]"
+                        # the method does something the interpreter does not follow (it calls a library function on its arguments, ...): what can
+                        # still be read off its text is WHICH operators it pipes - if ops.<its own name> is not among them, it is not that operator
+                        piped = sorted({n.func.attr for n in ast.walk(st) if isinstance(n, ast.Call) and isinstance(n.func, ast.Attribute)
+                                        and isinstance(n.func.value, ast.Name) and n.func.value.id in ("ops", "operators", "_ops")})
+                        want = {st.name, self.alias.get(st.name, st.name)}
+                        if piped and not (set(piped) & want):
+                            self.results.append(Result(oid_ + "/same-operator", "refuted", "forwarding (AST)", {}, [],
+                                                       f"the method pipes ops.{', ops.'.join(piped)} and never ops.{st.name} (and what it does to its arguments "
+                                                       f"first is outside the interpreter: {e})", 0.0, "forward"))
+                            continue
+                        self.results.append(Result(oid_, "unsupported", "", {}, [], str(e), 0.0, "forward"))
                         continue
                     for p in paths:
                         self.results.extend(p.results)
